@@ -377,3 +377,34 @@ pub fn add_connection_cids_native(pref: bool) -> u32 {
     }
     1 + pref as u32
 }
+
+/// Native replay body for the E2 query `e2_endpoint_connect_cid_leak` (C09), and demonstration for finding
+/// 16: `Endpoint::connect` with a crypto configuration that refuses the server name (as rustls does for a
+/// malformed name).  The failed attempt must leave nothing in the routing table: the CID generated for it was
+/// routed to the handle of the connection that was never created - the handle the NEXT connection gets.
+pub fn connect_failure_native(_x: u8) -> u32 {
+    use crate::connection::verif::nullcrypto;
+    struct Picky;
+    impl crate::crypto::ClientConfig for Picky {
+        fn start_session(self: Arc<Self>, _: u32, server_name: &str, _: &TransportParameters) -> Result<Box<dyn crate::crypto::Session>, ConnectError> {
+            if server_name.contains(' ') {
+                return Err(ConnectError::InvalidServerName(server_name.into()));
+            }
+            Ok(Box::new(nullcrypto::NullSession))
+        }
+    }
+    let mut cfg = EndpointConfig::new(Arc::new(NullHmac));
+    cfg.rng_seed(Some([7; 32]));
+    let mut ep = Endpoint::new(Arc::new(cfg), None, true);
+    let now = crate::verif::mk_instant(50, 0).unwrap();
+    let remote: SocketAddr = "10.0.0.1:4433".parse().unwrap();
+    for _ in 0..3 {
+        let r = ep.connect(now, ClientConfig::new(Arc::new(Picky)), remote, "not a name");
+        assert!(matches!(r, Err(ConnectError::InvalidServerName(_))));
+    }
+    assert!(ep.index.connection_ids.is_empty(), "{} connection IDs of connections that were never created are still routed", ep.index.connection_ids.len());
+    // a successful attempt afterwards owns exactly its own CID
+    let (ch, _conn) = ep.connect(now, ClientConfig::new(Arc::new(Picky)), remote, "example.com").ok().expect("valid name");
+    assert!(ep.index.connection_ids.len() == 1 && ep.index.connection_ids.values().all(|h| *h == ch));
+    1
+}
